@@ -139,8 +139,32 @@ def build_backend(world, backend, scratch, name="m"):
         if backend == "inmem_api":
             m = InMemMap(name, use_latlon=latlon, use_rtree=False, index_edges=False,
                          linked_edges=linked or None, dir=scratch)
-            for l, p, _ in nodes:
-                m.add_node(l, p)
+            # calls the map refuses: a road to a node that has not been declared yet (world["rejected"]).  The map
+            # raises and must be left as it was; the node is declared afterwards and never gets that road.
+            full = {l: set(nb) for l, _, nb in world["nodes"]}
+            rej = [_tup(e) for e in world.get("rejected", [])]
+            rej = [(a, b) for a, b in rej if a in full and b in full and a != b and b not in full[a]]
+            late_nodes = set(b for _, b in rej)
+            for attempt in (0, 1):
+                accepted = False
+                for l, p, _ in nodes:
+                    if l not in late_nodes or attempt:
+                        m.add_node(l, p)
+                if not attempt:
+                    for a, b in rej:
+                        if a not in late_nodes:
+                            try:
+                                m.add_edge(a, b)
+                                accepted = True      # a tree that accepts dangling roads: not modelled, build again without
+                            except Exception:
+                                pass
+                    for l, p, _ in nodes:
+                        if l in late_nodes:
+                            m.add_node(l, p)
+                if not accepted:
+                    break
+                m = InMemMap(name, use_latlon=latlon, use_rtree=False, index_edges=False,
+                             linked_edges=linked or None, dir=scratch)
             for l, _, nb in nodes:
                 for b in nb:
                     m.add_edge(l, b)
